@@ -59,6 +59,9 @@ RULE = ("fresh Environment per batch; formulas from harness/gen/formulas.py (all
         "sub-DAGs); maps: symbol keys (free, bound, absent), compound keys drawn from the formula's own sub-terms incl. parent/"
         "child overlaps, keys under binders, keys mentioning bound variables, rebuilt-node keys (MSS chains), constants, "
         "ill-typed values, function interpretations (closed bodies, repeated formals, wrong arity, free variables allowed); "
+        "directed shared-body family: one body node under 2-3 quantifiers with different / overlapping / equal binder sets, "
+        "combined under And/Or/Iff/Ite/Not, nested, next to a free occurrence, x maps keyed on every subset of the body's symbols "
+        "(+ compound keys): separates per-walk caches keyed on an abstraction of the reduced map; "
         "distinct = distinct (formula, map, interpretations) triples with a non-empty map or interpretation")
 
 
@@ -357,8 +360,92 @@ def pow_exponent_replaced(f, subs):
     return False
 
 
+SHARED_BATCH = 1000          # batch number of the directed shared-body family (for --replay)
+
+
+def gen_shared_body_batch(seed, tier):
+    """Directed family: ONE body node B over 3-4 symbols wrapped in 2-3 quantifiers with different /
+    overlapping / equal binder sets (both kinds), combined under And / Or / Iff / Ite / Not, nested in
+    each other and next to a free occurrence of B; maps keyed on every non-empty subset of B's
+    symbols (so that different binders hide equally many keys) plus compound keys.  Separates any
+    per-walk cache of rewritten bodies whose key abstracts the reduced map (its size, its key set,
+    the binder set) from the per-binder reduced map of the documented definition."""
+    import itertools
+    from pysmt.typing import BOOL, INT
+    rnd = random.Random("c05|shared|%d" % seed)
+    env = Environment()
+    m = env.formula_manager
+    x, y, z, w = [m.Symbol(n, BOOL) for n in "xyzw"]
+    i, j, k = [m.Symbol(n, INT) for n in "ijk"]
+    fresh = {BOOL: [m.Symbol(n, BOOL) for n in ("a", "b", "c", "d")], INT: [m.Symbol(n, INT) for n in ("p", "q", "r", "s")]}
+    bodies = [
+        (m.Or(m.And(x, y), z), [x, y, z], [m.And(x, y)]),
+        (m.Iff(m.Implies(x, y), m.Or(z, w)), [x, y, z, w], [m.Implies(x, y), m.Or(z, w)]),
+        (m.And(m.LE(m.Plus(i, j), k), x), [i, j, k, x], [m.Plus(i, j), m.LE(m.Plus(i, j), k)]),
+        (m.LT(m.Ite(x, i, j), m.Times(k, m.Int(2))), [x, i, j, k], [m.Ite(x, i, j), m.Times(k, m.Int(2))]),
+    ]
+    full = tier != "quick"
+    cases = []
+
+    def value(sym_or_term, t, style, syms):
+        if style == 0:                                   # a fresh symbol
+            return rnd.choice(fresh[t])
+        if style == 1:                                   # another symbol of the body (possible capture)
+            same = [u for u in syms if u.symbol_type() == t and u is not sym_or_term]
+            return rnd.choice(same) if same else rnd.choice(fresh[t])
+        if t == BOOL:                                    # a small term over fresh symbols
+            return rnd.choice([m.Not(fresh[BOOL][0]), m.And(fresh[BOOL][1], fresh[BOOL][2]), m.LE(fresh[INT][0], m.Int(0))])
+        return rnd.choice([m.Plus(fresh[INT][0], m.Int(1)), m.Times(fresh[INT][1], m.Int(3)), m.Int(7)])
+
+    for B, syms, comps in bodies:
+        singles = [(u,) for u in syms]
+        doubles = [c for c in itertools.combinations(syms, 2)]
+        pairs = [(a, b) for a in singles for b in singles if a != b]              # equal size, different variable
+        mixed = [(a, b) for a in doubles for b in doubles if a != b] + \
+                [(a, b) for a in singles for b in doubles] + [(a, a) for a in singles + doubles]
+        mixed = rnd.sample(mixed, 20 if full else 4)
+        subsets = [c for r in range(1, len(syms) + 1) for c in itertools.combinations(syms, r)]
+        for vs1, vs2 in pairs + mixed:
+            def Q(kind, vs, body=B):
+                return (m.ForAll if kind else m.Exists)(list(vs), body)
+            k1, k2 = rnd.random() < 0.5, rnd.random() < 0.5
+            q1, q2 = Q(k1, vs1), Q(k2, vs2)
+            vs3 = rnd.choice(singles + doubles)
+            q3 = Q(rnd.random() < 0.5, vs3)
+            u = rnd.choice(syms)
+            combos = [m.And(q1, q2), m.Or(q2, q1), m.Iff(q1, q2), m.Ite(q1, q2, q3), m.And(m.Not(q1), q2),
+                      m.And(q1, B, q2),                                               # next to a free occurrence
+                      m.ForAll([u], m.Or(q1, q2)),                                    # under a common binder (one sub-walker)
+                      Q(k1, vs1, m.And(B, q2)),                                       # nested in each other
+                      m.Exists(list(vs2), m.Implies(q1, m.Or(B, q3)))]
+            if not full:
+                combos = [combos[0]] + rnd.sample(combos[1:], 1)
+            for f in combos:
+                chosen = subsets if len(subsets) <= 7 else rnd.sample(subsets, 8 if full else 7)
+                for n, ks in enumerate(chosen):
+                    style = n % 3
+                    subs = {u0: value(u0, u0.symbol_type(), style, syms) for u0 in ks}
+                    cases.append((f, subs, "shared"))
+                for _ in range(2 if full else 1):                                     # compound keys (and a symbol key)
+                    subs = {}
+                    for c in rnd.sample(comps, rnd.choice([1, len(comps)])):
+                        subs[c] = value(c, env.stc.get_type(c), rnd.choice([0, 2]), syms)
+                    u0 = rnd.choice(syms)
+                    subs[u0] = value(u0, u0.symbol_type(), rnd.choice([0, 1, 2]), syms)
+                    cases.append((f, subs, "shared+term"))
+    out = []
+    for f, subs, kind in cases:
+        c = Case()
+        c.f, c.subs, c.interps, c.kind, c.batch, c.index = f, list(subs.items()), [], kind, SHARED_BATCH, len(out)
+        run_impl(env, c)
+        out.append(c)
+    return env, out
+
+
 def gen_batch(seed, batch, tier):
     """Deterministic in (seed, batch): list of Case with the implementation's results."""
+    if batch == SHARED_BATCH:
+        return gen_shared_body_batch(seed, tier)
     rnd = random.Random("c05|%d|%d" % (seed, batch))
     env = Environment()
     cfg = Config()
@@ -681,15 +768,16 @@ def run(tier):
     nb = 10 if tier == "quick" else 60
     stats = {"kinds": {}, "raises": 0, "changed": 0, "mgs_ne_mss": 0, "semantic_evals": 0, "semantic_cases": 0}
     all_cases, files, canon_files = [], [], []
-    for b in range(nb):
+    for b in list(range(nb)) + [SHARED_BATCH]:
         env, cases = gen_batch(chk.seed, b, tier)
         check_batch_cases(chk, b, env, cases, rnd, tier, stats)
         off = len(all_cases)
         for p, k, n in write_cases(chk.dir, "b%d" % b, cases, OK_DEF, 100):
             files.append((p, off + k, n))
-        for p, k, n in write_cases(chk.dir, "canon%d" % b, cases, CANON_DEF, 1000):
+        for p, k, n in write_cases(chk.dir, "canon%d" % b, cases, CANON_DEF, 200):
             canon_files.append((p, off + k, n))
         all_cases += cases
+    chk.cov["directed_shared_body_family"] = stats["kinds"].get("shared", 0) + stats["kinds"].get("shared+term", 0)
     chk.note("generated %d cases in %d batches; implementation raised on %d, changed the formula on %d, MGS<>MSS on %d; "
              "semantic oracle: %d evaluations on %d cases" % (len(all_cases), nb, stats["raises"], stats["changed"],
                                                              stats["mgs_ne_mss"], stats["semantic_evals"], stats["semantic_cases"]))
